@@ -9,6 +9,7 @@ same treatment through the spec pipeline when it is available.
 """
 
 import importlib
+import sys
 import itertools
 import types
 from enum import IntEnum
@@ -181,25 +182,78 @@ ORDER_NAMES = {n for n, _ in ORDER_ENUMS}
 _gen_dir = None
 
 
+def _enum_tree():
+    from .. import genpipe, specs
+
+    files = {}
+    decls = {}
+    env = specs.Env(specs.prelude(2))
+    for d, items in GEN_ENUMS.items():
+        for name, spec in items:
+            if spec is not None:
+                files.setdefault(d, []).append(specs.enum(name, spec[0], spec[1]))
+                members = dict(spec[1])
+            else:
+                members = dict(env.enum_values(name))
+            pyname = {("None_" if k == "None" else k): v for k, v in members.items()}
+            decls[name] = ("eolib.protocol._generated." + genpipe.SUBPKG[d] + "." + genpipe.snake(name), pyname)
+    files.setdefault("pub", []).append(specs.struct("Survivor", [specs.field(n, t) for n, t in SURVIVAL_FIELDS]))
+    return files, decls
+
+
+def reused_generator_check():
+    """The enum tree generated by a generator object that generated an EARLIER VERSION of it before (every declared
+    ordinal one higher): the classes must carry the ordinals of the tree they were generated from.  -> description or None"""
+    import shutil
+
+    from .. import genpipe
+
+    files, decls = _enum_tree()
+    earlier = {}
+    for d, nodes in files.items():
+        earlier[d] = []
+        for n in nodes:
+            c = n.copy()
+            if c.tag == "enum":
+                for v in c.kids:
+                    if v.tag == "value":
+                        v.text = str(int(v.text) + 1)
+            earlier[d].append(c)
+    work = loader.scratch_dir("c14r")
+    try:
+        genpipe.write_tree(earlier, work + "/xml", n_families=2)
+
+        def rewrite():
+            shutil.rmtree(work + "/xml")
+            genpipe.write_tree(files, work + "/xml", n_families=2)
+
+        how, err = genpipe.run_generator_twice(work + "/xml", work + "/out", rewrite)
+        if how == "first-failed":
+            return None  # the shifted tree is not a valid tree (an ordinal left its range): nothing to learn
+        if how == "raised":
+            return f"a generator object that generated an earlier version of the enum tree fails on the current one: {type(err).__name__}: {err}"
+        importlib.reload(loader.lib("eolib.protocol.protocol_enum_meta"))
+        loader.point_generated_at(work + "/out/second")
+        for name, (mod, members) in decls.items():
+            if name in ("PacketAction", "E1", "E2", "E3"):
+                continue  # prelude enums are not shifted
+            cls = getattr(loader.gen(mod), name)
+            for mname, ordinal in members.items():
+                got = cls(ordinal)
+                if got.name != mname or int(got) != ordinal or getattr(cls, mname) is not got:
+                    return f"generated by a re-used generator object: {name}({ordinal}) is {got.name}, the tree declares {mname} = {ordinal}"
+        return None
+    finally:
+        shutil.rmtree(work, ignore_errors=True)
+
+
 def _generated_setup():
     """Generate the enum tree once per process; returns (out_dir, {class name: (module, {member: ordinal})})."""
     global _gen_dir
     from .. import genpipe, specs
 
     if _gen_dir is None:
-        files = {}
-        decls = {}
-        env = specs.Env(specs.prelude(2))
-        for d, items in GEN_ENUMS.items():
-            for name, spec in items:
-                if spec is not None:
-                    files.setdefault(d, []).append(specs.enum(name, spec[0], spec[1]))
-                    members = dict(spec[1])
-                else:
-                    members = dict(env.enum_values(name))
-                pyname = {("None_" if k == "None" else k): v for k, v in members.items()}
-                decls[name] = ("eolib.protocol._generated." + genpipe.SUBPKG[d] + "." + genpipe.snake(name), pyname)
-        files.setdefault("pub", []).append(specs.struct("Survivor", [specs.field(n, t) for n, t in SURVIVAL_FIELDS]))
+        files, decls = _enum_tree()
         work = loader.scratch_dir("c14")
         genpipe.write_tree(files, work + "/xml", n_families=2)
         err = genpipe.run_generator(work + "/xml", work + "/out")
@@ -298,6 +352,11 @@ def _gen_shard(firsts):
     return count, bad
 
 
+def _reused_job(_):
+    loader.install_shims()
+    return reused_generator_check()
+
+
 def menu():
     ops = []
     for cname, decl in DECLS.items():
@@ -344,6 +403,10 @@ def run(tier, seed):
             key = "generated-enum:" + w.split(": ", 1)[1].split("(")[0][:30]
             violations.append({"key": key, "what": f"generated enums, history {hist}: {w}", "case": {"history": hist, "generated": True}})
     count += gcount
+    count += 1
+    w = par.pmap(_reused_job, [0])[0]
+    if w:
+        violations.append({"key": "generated-enum:reused-generator", "what": w, "case": {"reused_generator": True}})
     for ords in survival_cases():
         count += 1
         w = survival_case(ords)
@@ -376,6 +439,8 @@ def run(tier, seed):
 
 def replay(case):
     loader.install_shims()
+    if case.get("reused_generator"):
+        return reused_generator_check()
     if case.get("survival"):
         return survival_case([int(x) for x in case["survival"]])
     if case.get("generated"):
